@@ -195,7 +195,7 @@ PERMS = list(permutations(range(3)))
 
 def wait_params(tier):
     S = 3 if tier == "quick" else 4
-    return [P("perm", 0, 5), P("e10", 0, 1), P("e20", 0, 1), P("e21", 0, 1), P("wp", 0, 1), P("pp", 0, 1), P("cpb", 0, 1), P("variant", 0, 2)] + [
+    return [P("perm", 0, 5), P("e10", 0, 1), P("e20", 0, 1), P("e21", 0, 1), P("wp", 0, 1), P("pp", 0, 1), P("cpb", 0, 1), P("variant", 0, 3)] + [
         P(f"s{i}", 0, 5) for i in range(S)
     ]
 
@@ -213,7 +213,7 @@ def wait_fn(a, tier):
         edges.append((2, 1))
     wp, pp, cpb = pick(a["wp"], 2), pick(a["pp"], 2), pick(a["cpb"], 2)
     # ownctx: every waiting sibling first opens and leaves a context of its own; pubkind 1: siblings provide their resource as a FACTORY
-    variant = pick(a["variant"], 3)
+    variant = pick(a["variant"], 4)  # 3: the waiting siblings get the resource as an injected parameter of an @inject coroutine function
     ownctx, pubkind = int(variant == 1), int(variant == 2)
     tape = Tape([a[f"s{i}"] for i in range(S)])
     env = Env()
@@ -226,7 +226,7 @@ def wait_fn(a, tier):
     prep[0] = [("giveup", RT[4], "never"), ("cp",), ("pub", "P", vals[0], "default", [RT[0]])]
     for r in range(3):
         nd = node_of[r]
-        waits = [("wait", f"w{nd}<-{node_of[p]}", RT[node_of[p]], "default") for (w, p) in edges if w == r]
+        waits = [("injwait" if variant == 3 else "wait", f"w{nd}<-{node_of[p]}", RT[node_of[p]], "default") for (w, p) in edges if w == r]
         if waits and ownctx:
             waits.insert(0, ("subctx", "own", RT[0], "default"))
         (prep if wp == 0 else start)[nd] += waits
@@ -250,7 +250,8 @@ def wait_fn(a, tier):
     summary = {"sibling_order": [node_of[r] for r in range(3)], "wait_edges": [f"n{node_of[w]} waits for n{node_of[p]}" for w, p in edges],
                "waits_in": "prepare" if wp == 0 else "start", "publishes_in": "prepare" if pp == 0 else "start",
                "checkpoint_before_publish": bool(cpb), "schedule": tape.taken,
-               "waiters_first_enter_and_leave_a_context_of_their_own": bool(ownctx), "siblings_publish": ["a resource", "a resource factory"][pubkind]}
+               "waiters_first_enter_and_leave_a_context_of_their_own": bool(ownctx), "siblings_publish": ["a resource", "a resource factory"][pubkind],
+               "waits_made_through": "an @inject-decorated coroutine function" if variant == 3 else "get_resource()"}
     if exc is not None:
         return FAIL(f"wait:acyclic-pattern-did-not-complete:{type(exc).__name__}", f"{exc!r} log={env.log}", summary)
     for key in [k_ for k_ in env.values if k_[1].startswith("own")]:
